@@ -12,16 +12,45 @@ import (
 // Chan models a Go channel under the controlled runtime. In pass-through mode
 // (no execution attached) it is a thin wrapper around a real channel.
 type Chan[T any] struct {
-	real   chan T
-	cap    int
-	buf    []T
-	closed bool
-	sendq  []*sendWait[T]
-	recvq  []*recvWait[T]
+	real  chan T
+	core  chanCore // non-generic readiness state, read by the (non-generic, norace) predicates
+	buf   []T
+	sendq []*sendWait[T]
+	recvq []*recvWait[T]
 	// hb carries the happens-before edges of completed operations to the race
 	// detector (an atomic read-modify-write: acquire+release). This orders all
 	// operations of one channel, slightly more than Go guarantees.
 	hb uint32
+}
+
+// chanCore mirrors len(buf), len(sendq), len(recvq), cap and closed.
+type chanCore struct {
+	cap, nbuf, nsend, nrecv int
+	closed                 bool
+}
+
+//go:norace
+func (c *chanCore) sendReady() bool { return c.closed || c.nbuf < c.cap || c.nrecv > 0 }
+
+//go:norace
+func (c *chanCore) recvReady() bool { return c.nbuf > 0 || c.nsend > 0 || c.closed }
+
+// chanWait is the predicate of a parked send or receive.
+type chanWait struct {
+	core *chanCore
+	done *bool
+	send bool
+}
+
+//go:norace
+func (w *chanWait) Ready() bool {
+	if *w.done {
+		return true
+	}
+	if w.send {
+		return w.core.sendReady()
+	}
+	return w.core.recvReady()
 }
 
 type sendWait[T any] struct {
@@ -35,22 +64,23 @@ type recvWait[T any] struct {
 	done bool
 }
 
+//go:norace
+func (c *Chan[T]) syncCore() {
+	c.core.nbuf, c.core.nsend, c.core.nrecv = len(c.buf), len(c.sendq), len(c.recvq)
+}
+
 func MakeChan[T any](n int) *Chan[T] {
-	return &Chan[T]{real: make(chan T, n), cap: n}
+	return &Chan[T]{real: make(chan T, n), core: chanCore{cap: n}}
 }
 
 //go:norace
 func (c *Chan[T]) edge() { atomic.AddUint32(&c.hb, 1) }
 
 //go:norace
-func (c *Chan[T]) sendReady() bool {
-	return c.closed || len(c.buf) < c.cap || len(c.recvq) > 0
-}
+func (c *Chan[T]) sendReady() bool { c.syncCore(); return c.core.sendReady() }
 
 //go:norace
-func (c *Chan[T]) recvReady() bool {
-	return len(c.buf) > 0 || len(c.sendq) > 0 || c.closed
-}
+func (c *Chan[T]) recvReady() bool { c.syncCore(); return c.core.recvReady() }
 
 //go:norace
 func Send[T any](c *Chan[T], v T) {
@@ -66,18 +96,20 @@ func Send[T any](c *Chan[T], v T) {
 		return
 	}
 	if c == nil {
-		Wait("send on nil channel", func() bool { return false })
+		Wait("send on nil channel", Never{})
 		return
 	}
 	s := &sendWait[T]{v: v}
 	c.sendq = append(c.sendq, s)
-	Wait("chan send", func() bool { return s.taken || c.sendReady() })
+	c.syncCore()
+	Wait("chan send", &chanWait{core: &c.core, done: &s.taken, send: true})
 	if s.taken {
 		c.edge()
 		return
 	}
 	c.removeSend(s)
-	if c.closed {
+	defer c.syncCore()
+	if c.core.closed {
 		panic("send on closed channel")
 	}
 	c.edge()
@@ -95,6 +127,7 @@ func (c *Chan[T]) removeSend(s *sendWait[T]) {
 	for i, x := range c.sendq {
 		if x == s {
 			c.sendq = append(c.sendq[:i:i], c.sendq[i+1:]...)
+			c.syncCore()
 			return
 		}
 	}
@@ -105,6 +138,7 @@ func (c *Chan[T]) removeRecv(r *recvWait[T]) {
 	for i, x := range c.recvq {
 		if x == r {
 			c.recvq = append(c.recvq[:i:i], c.recvq[i+1:]...)
+			c.syncCore()
 			return
 		}
 	}
@@ -126,13 +160,14 @@ func Recv2[T any](c *Chan[T]) (T, bool) {
 		return v, ok
 	}
 	if c == nil {
-		Wait("receive from nil channel", func() bool { return false })
+		Wait("receive from nil channel", Never{})
 		var z T
 		return z, false
 	}
 	r := &recvWait[T]{}
 	c.recvq = append(c.recvq, r)
-	Wait("chan receive", func() bool { return r.done || c.recvReady() })
+	c.syncCore()
+	Wait("chan receive", &chanWait{core: &c.core, done: &r.done})
 	if r.done {
 		c.edge()
 		return r.v, r.ok
@@ -146,6 +181,7 @@ func Recv2[T any](c *Chan[T]) (T, bool) {
 //go:norace
 func (c *Chan[T]) takeNow() (T, bool) {
 	c.edge()
+	defer c.syncCore()
 	var z T
 	if len(c.buf) > 0 {
 		v := c.buf[0]
@@ -183,21 +219,23 @@ func Close[T any](c *Chan[T]) {
 		return
 	}
 	Sched("chan close")
-	if c.closed {
+	if c.core.closed {
 		panic("close of closed channel")
 	}
-	c.closed = true
+	c.core.closed = true
 	c.edge()
 	for _, r := range c.recvq {
 		r.done, r.ok = true, false
 	}
 	c.recvq = nil
+	c.syncCore()
 }
 
 // TrySend is the non-blocking send used by timers (Go drops a tick when the channel is full).
 //
 //go:norace
 func TrySend[T any](c *Chan[T], v T) bool {
+	defer c.syncCore()
 	if len(c.recvq) > 0 {
 		r := c.recvq[0]
 		c.recvq = c.recvq[1:]
@@ -205,7 +243,7 @@ func TrySend[T any](c *Chan[T], v T) bool {
 		c.edge()
 		return true
 	}
-	if len(c.buf) < c.cap {
+	if len(c.buf) < c.core.cap {
 		c.buf = append(c.buf, v)
 		c.edge()
 		return true
@@ -216,8 +254,36 @@ func TrySend[T any](c *Chan[T], v T) bool {
 // ---------------------------------------------------------------- select
 
 type selCase struct {
-	ready func() bool
-	fire  func() any
+	core *chanCore // nil: never ready (nil channel)
+	send bool
+	fire func() any
+}
+
+//go:norace
+func (c *selCase) ready() bool {
+	if c.core == nil {
+		return false
+	}
+	if c.send {
+		return c.core.sendReady()
+	}
+	return c.core.recvReady()
+}
+
+// selWait is the predicate of a parked select: some case is ready.
+type selWait struct {
+	cases [8]selCase
+	n     int
+}
+
+//go:norace
+func (w *selWait) Ready() bool {
+	for i := 0; i < w.n; i++ {
+		if w.cases[i].ready() {
+			return true
+		}
+	}
+	return false
 }
 
 // Sel is the result of a Select.
@@ -240,13 +306,13 @@ type SelCase struct {
 func RecvCase[T any](c *Chan[T]) SelCase {
 	sc := SelCase{dir: reflect.SelectRecv}
 	if c == nil {
-		sc.c = selCase{ready: func() bool { return false }}
 		sc.ch = reflect.ValueOf((chan T)(nil))
 		return sc
 	}
 	sc.ch = reflect.ValueOf(c.real)
+	c.syncCore()
 	sc.c = selCase{
-		ready: func() bool { return c.recvReady() },
+		core: &c.core,
 		fire: func() any {
 			v, ok := c.takeNow()
 			return [2]any{v, ok}
@@ -259,15 +325,17 @@ func RecvCase[T any](c *Chan[T]) SelCase {
 func SendCase[T any](c *Chan[T], v T) SelCase {
 	sc := SelCase{dir: reflect.SelectSend, send: reflect.ValueOf(v)}
 	if c == nil {
-		sc.c = selCase{ready: func() bool { return false }}
 		sc.ch = reflect.ValueOf((chan T)(nil))
 		return sc
 	}
 	sc.ch = reflect.ValueOf(c.real)
+	c.syncCore()
 	sc.c = selCase{
-		ready: func() bool { return c.sendReady() },
+		core: &c.core,
+		send: true,
 		fire: func() any {
-			if c.closed {
+			defer c.syncCore()
+			if c.core.closed {
 				panic("send on closed channel")
 			}
 			c.edge()
@@ -310,18 +378,17 @@ func Select(hasDefault bool, cases ...SelCase) *Sel {
 		}
 		return &Sel{Index: i, val: val, ok: ok}
 	}
-	anyReady := func() bool {
-		for _, c := range cases {
-			if c.c.ready() {
-				return true
-			}
-		}
-		return false
+	if len(cases) > 8 {
+		panic("vrt.Select: more than 8 cases")
+	}
+	w := &selWait{n: len(cases)} // scheduler-owned copy: the caller's variadic slice was written by instrumented code
+	for i := range cases {
+		w.cases[i] = cases[i].c
 	}
 	if hasDefault {
 		Sched("select")
 	} else {
-		Wait("select", anyReady)
+		Wait("select", w)
 	}
 	var ready []int
 	for i, c := range cases {
@@ -363,7 +430,7 @@ func BlockForever() {
 		select {}
 	}
 	SetDaemon() // a goroutine that parks itself for good is not a deadlock victim
-	Wait("select {}", func() bool { return false })
+	Wait("select {}", Never{})
 }
 
 // ---------------------------------------------------------------- map iteration order
